@@ -163,7 +163,7 @@ type vcOpts struct {
 	name         string
 	useContracts bool
 	specialise   func(x *Exec, st *State, args []Value) // case split: pins parts of the symbolic pre-state
-	comps        map[string]bool                         // nil: all components of a [diff] clause
+	comps        map[string]bool                        // nil: all components of a [diff] clause
 	frame        bool
 	safety       bool
 	onlySafety   bool // drop the functional goals (cases the statement leaves open)
@@ -178,7 +178,7 @@ type vcOpts struct {
 func (ld *Loaded) contractVC(c *Contract, o vcOpts) (vc *VC, err error) {
 	defer func() {
 		if r := recover(); r != nil {
-			if u, ok := r.(Unsupported); ok {
+			if u, ok := asUnsupported(r); ok {
 				err = fmt.Errorf("UNSUPPORTED %s (%s)", u.Msg, o.name)
 				return
 			}
